@@ -6,6 +6,7 @@ import (
 	"go/token"
 	"go/types"
 	"sort"
+	"strconv"
 	"strings"
 
 	"golang.org/x/tools/go/ssa"
@@ -538,6 +539,25 @@ func (e *Engine) VerifyFunc(fn *ssa.Function, c *Contract, prop string) {
 		e.Incomplete = append(e.Incomplete, e.curFunc+": no body")
 		return
 	}
+	// `opt cases decimal1 <param> <lo> <hi>`: verify once per value k/10 of a
+	// float64 parameter (each run has a constant threshold, which keeps the
+	// arithmetic linear); the union of the cases is the requires decimal1(...)
+	if cs, ok := c.Opts["cases"]; ok && caseAssume == "" {
+		f := strings.Fields(cs)
+		if len(f) == 4 && f[0] == "decimal1" {
+			lo, _ := strconv.Atoi(f[2])
+			hi, _ := strconv.Atoi(f[3])
+			for k := lo; k <= hi; k++ {
+				fv, _ := strconv.ParseFloat(fmt.Sprintf("%d.%d", k/10, k%10), 64)
+				caseNoCover = k != lo && k != hi
+				e.verifyFuncCase(fn, c, prop, f[1], fpConst(fv))
+			}
+			caseNoCover = false
+			e.Assumed[fmt.Sprintf("case split: %s verified separately for each of the %d values %s = k/10, %d <= k <= %d", e.curFunc, hi-lo+1, f[1], lo, hi)] = true
+			return
+		}
+		panic("spec error: bad opt cases")
+	}
 	st := e.newState()
 	fr := &Frame{fn: fn, vals: map[ssa.Value]*Val{}, vars: map[string]*Val{}, contract: c,
 		loopPre: map[*ssa.BasicBlock]*State{}, variant: map[*ssa.BasicBlock]string{}, params: map[string]*Val{}}
@@ -564,6 +584,13 @@ func (e *Engine) VerifyFunc(fn *ssa.Function, c *Contract, prop string) {
 	for _, rq := range c.Requires {
 		st.assume(e.evalBool(env, rq))
 	}
+	if caseAssume != "" {
+		pv, ok := fr.params[caseParam]
+		if !ok {
+			panic("spec error: opt cases: no parameter " + caseParam)
+		}
+		st.assume(eq(pv.T, caseAssume))
+	}
 	// vacuity guard
 	ri := &replayInfo{fn: fn, bv: c.BV, heap: map[string]string{}}
 	for i, p := range fn.Params {
@@ -573,7 +600,9 @@ func (e *Engine) VerifyFunc(fn *ssa.Function, c *Contract, prop string) {
 		ri.heap[k] = v
 	}
 	e.curReplay = ri
-	e.emitCover(st, "cover#requires", "requires of "+e.curFunc+" are satisfiable")
+	if !caseNoCover {
+		e.emitCover(st, "cover#requires", "requires of "+e.curFunc+" are satisfiable")
+	}
 	fr.ret = func(st *State, rets []*Val) {
 		e.checkPost(st, fr0(st, fn), c, rets)
 	}
@@ -581,6 +610,20 @@ func (e *Engine) VerifyFunc(fn *ssa.Function, c *Contract, prop string) {
 }
 
 func fr0(st *State, fn *ssa.Function) *Frame { return st.frames[0] }
+
+var caseAssume, caseParam string
+var caseNoCover bool
+
+func (e *Engine) verifyFuncCase(fn *ssa.Function, c *Contract, prop, param, val string) {
+	caseAssume, caseParam = val, param
+	defer func() { caseAssume, caseParam = "", "" }()
+	n := len(e.FuncsDone)
+	e.VerifyFunc(fn, c, prop)
+	e.FuncsDone = e.FuncsDone[:n]
+	if len(e.FuncsDone) == 0 || e.FuncsDone[len(e.FuncsDone)-1] != e.curFunc {
+		e.FuncsDone = append(e.FuncsDone, e.curFunc)
+	}
+}
 
 // runPath runs f, converting unsupported-construct panics into an incomplete
 // record for the current function (the path is abandoned).
